@@ -24,11 +24,11 @@ EQ_PHRASES = ('have different modules', 'different helix angles', 'different pre
 
 def floors(tier):
     return {'baselines': 120, 'pairs_compared': 350, 'reexpressed_quantities': 4000, 'stopped_baselines': 20, 'controlled_baselines': 30, 'continued_baselines': 20,
-            'set:role_unit': 223, 'set:nontrivial': 300}
+            'set:role_unit': 212, 'set:nontrivial': 300}
 
 
 def n_cases(tier):
-    return 192 if tier == 'quick' else 6000
+    return 240 if tier == 'quick' else 6000
 
 
 def quantities(spec):
@@ -246,6 +246,14 @@ def one(ctx, i):
         ctx.sample({'topology': SC.topo_signature(spec), 'baseline_units': {role: cont[key]['u'] for role, cont, key in quantities(spec)},
                     'last_variant_units': wit['units'], 'instants': t0.n, 'output_speed_baseline_last': t0.els[-1]['vars']['angular speed'][-1],
                     'output_speed_variant_last': t1.els[-1]['vars']['angular speed'][-1] if t1 else None})
+
+
+def finalize(cov, merged):
+    n = len(merged['sets'].get('role_unit', ()))
+    cov['role_unit_combinations_covered'] = n
+    cov['role_unit_combinations_total'] = 223
+    cov['exhaustive'] = n == 223
+    cov['exhaustive_dimension'] = 'input role x unit of its kind (223 combinations); unit assignments themselves are sampled'
 
 
 def shard(ctx):
